@@ -36,6 +36,7 @@ pub fn run(out: &str, threads: usize, sleeps: usize, seed: u64) {
     std::thread::scope(|sc| {
         for th in 0..threads {
             let handle = driver.handle();
+            let driver = &driver;
             let log = log.clone();
             let next_id = next_id.clone();
             sc.spawn(move || {
@@ -127,15 +128,21 @@ pub fn run(out: &str, threads: usize, sleeps: usize, seed: u64) {
                         }
                         // block_timeout: Timeout only when the future did not complete within the duration
                         _ => {
+                            // the future is a chain of k sleeps (it is woken and polled k times before it completes)
+                            let k: i64 = rng.gen_range(1..=5);
                             let dur_us: i64 = rng.gen_range(0..30_000);
-                            let timeout_us: i64 = match rng.gen_range(0..3) { 0 => dur_us / 2, 1 => dur_us + 1_500_000, _ => rng.gen_range(0..30_000) };
+                            let timeout_us: i64 = match rng.gen_range(0..4) { 0 => dur_us / 2, 1 => dur_us + 1_500_000, 2 => 2 * dur_us + 5_000, _ => rng.gen_range(0..30_000) };
                             let expect = rng.gen_range(0..1000) as i64;
-                            let s = handle.sleep(Duration::from_micros(dur_us as u64));
+                            let h2 = driver.handle();
                             let t0 = us();
                             let r = block_timeout(Duration::from_micros(timeout_us as u64), async move {
-                                s.await;
+                                for _ in 0..k {
+                                    h2.sleep(Duration::from_micros((dur_us / k) as u64)).await;
+                                }
                                 expect
                             });
+                            // (elapsed time of the whole chain is at least k * (dur / k))
+                            let dur_us = (dur_us / k) * k;
                             let t1 = us();
                             local.push(json!({"ev": "BlockTimeout", "id": id, "t": t1, "t0": t0, "dur": dur_us, "timeout": timeout_us,
                                               "res": if r.is_ok() { "Ok" } else { "Timeout" }, "expect": expect, "got": r.unwrap_or(-1)}));
